@@ -13,7 +13,15 @@ func propC05(ch core.Chooser, st *core.Stats) error {
 	_, ukeys := drawUniverse(ch)
 	cfg := dbx.DrawConfig(ch, []int{600, 1024, 2048})
 	cfg.Frag = []float32{0.02, 0.1, 0.3, 0.5}[ch.Int("frag5", 0, 3)]
+	// the minimum segment size for compaction: mostly the smallest, sometimes close to the
+	// segment size (segments sealed early by a record that did not fit then stay below it)
 	cfg.MinSeg = 520
+	if core.Pct(ch, "minseg_var", 40) {
+		cfg.MinSeg = uint32(core.PickInt(ch, "minseg5", []int{600, 800, 1000, int(cfg.SegSize) - 100, int(cfg.SegSize)}))
+		if cfg.MinSeg < 520 {
+			cfg.MinSeg = 520
+		}
+	}
 	cfg.SyncWrites = core.Pct(ch, "syncwrites", 10)
 	s := newFsess(ch, st, nil, cfg, ukeys, map[string]string{})
 	s.oversize = core.Pct(ch, "oversize", 10)
@@ -26,7 +34,12 @@ func propC05(ch core.Chooser, st *core.Stats) error {
 	}
 	// phase 1: fill segments and make them eligible (overwrites and deletes of hot keys)
 	delw := core.PickInt(ch, "prefill_delw", []int{0, 0, 1, 4})
-	if err := s.runOps(ch.Int("prefill", 5, core.Scale(30, 120)), []int{8, delw, 0, 0, 0, 0, 0}); err != nil {
+	if core.Pct(ch, "hazard_prefix", 50) {
+		if err := s.hazardPrefill(); err != nil {
+			return err
+		}
+	}
+	if err := s.runOps(ch.Int("prefill", 0, core.Scale(30, 120)), []int{8, delw, 0, 0, 0, 0, 0}); err != nil {
 		return err
 	}
 	firstCompact := s.fs.LogLen()
@@ -64,18 +77,12 @@ func propC05(ch core.Chooser, st *core.Stats) error {
 	}
 	// every crash point inside a Compact call (copy, repoint, source removal, delete-marker drop,
 	// inline writers), plus - for a drawn fifth of the histories - every later point as well
-	fp := core.FingerprintOf(ch)
+	s.trivialHistory = !nontrivial
 	all := core.Pct(ch, "enumerate_all", 20)
 	err := enumerateCrashPoints(ch, st, s, faultfs.NewState(), 0, func(p int, w *logWalker) bool {
 		return p >= firstCompact && (all || w.depth["C"] > 0)
 	}, "C05")
-	if err != nil {
-		return err
-	}
-	if nontrivial {
-		st.Nontrivial(fp)
-	}
-	return nil
+	return err
 }
 
 func TestC05(t *testing.T) { core.Run(t, "C05", "C05", propC05) }
